@@ -36,7 +36,7 @@ Open Scope list_scope.
 
 (* what the code does, re-extracted on every run: the compilation starts by resetting the reference index
    (REFS, index_map, next_index), get_sources() keeps only files the indexed references point into, and the
-   text cache is validated by path *)
+   text cache is validated by path and modification stamp *)
 Theorem C08_source_tables_reset :
   smem "SourceRef.reset_refs" GenFrontend.cleared
   && forallb (fun x => smem x GenSourceRef.sr_reset_clears) ["REFS"; "index_map"; "next_index"]
@@ -53,11 +53,12 @@ Proof. exact refs_fresh. Qed.
 Print Assumptions C08_references_fresh.
 
 (* the text held (and emitted) for a file name is what a step of this run read from disk; an earlier entry
-   survives only if every access to that name in the run was to the very same path *)
-Theorem C08_file_texts_fresh : forall resets s0 ops base p d,
-  held (fold_left (tstep resets true) ops s0) base = Some (p, d) ->
-  In (OTouch p base d) ops
-  \/ (held s0 base = Some (p, d) /\ forall p1 d1, In (OTouch p1 base d1) ops -> p1 = p).
+   survives only if every access to that name in the run was to the very same path with the very same
+   modification stamp (the file was not touched in between) *)
+Theorem C08_file_texts_fresh : forall resets s0 ops base p v d,
+  held (fold_left (tstep resets true) ops s0) base = Some (p, v, d) ->
+  In (OTouch p base v d) ops
+  \/ (held s0 base = Some (p, v, d) /\ forall p1 v1 d1, In (OTouch p1 base v1 d1) ops -> p1 = p /\ v1 = v).
 Proof. exact files_fresh. Qed.
 Print Assumptions C08_file_texts_fresh.
 
